@@ -101,13 +101,13 @@ def classHugeSize (l : Lql) : Bool :=
   | some t => (match t.minSize with | some n => n ≥ 2^63 | none => false) || (match t.maxSize with | some n => n ≥ 2^63 | none => false)
   | none => false
 
-/-- F12g: `RANGE [` with neither bound (accepted: the optional `[` alone makes the struct non-empty; printed "RANGE ") -/
+/-- F12g (fixed by 2681434, rejected by `ParseLql` now; kept to name a recurrence): `RANGE [` with neither bound (was accepted: the optional `[` alone makes the struct non-empty; printed "RANGE ") -/
 def classEmptyRange (l : Lql) : Bool :=
   match l.select with
   | some s => (match s.range with | some r => r.p1.isNone && r.p2.isNone | none => false)
   | none => false
 
-/-- the classes a failure of this statement may be attributed to. F12c / F12d / F12f are repaired: their predicates
+/-- the classes a failure of this statement may be attributed to. F12c / F12d / F12f / F12g are repaired: their predicates
 count only when the regenerated printer facts say the old shape is back (then the check reports "the defect is back") -/
 def classes (rd : Int → Bytes) (l : Lql) : List String :=
   (if classBraceAfterTags rd l then ["F12a"] else []) ++ (if classUnsafeTags l then ["F12b"] else [])
@@ -115,7 +115,7 @@ def classes (rd : Int → Bytes) (l : Lql) : List String :=
   ++ (if classDateFraction l && !Logrange.Generated.C12.dateUsesFormat then ["F12d"] else [])
   ++ (if classBareKeyword l then ["F12e"] else [])
   ++ (if classHugeSize l && !Logrange.Generated.C12.truncateSizesUnsigned then ["F12f"] else [])
-  ++ (if classEmptyRange l then ["F12g"] else [])
+  ++ (if classEmptyRange l && !Logrange.Generated.C12.parseLqlRejectsEmptyRange then ["F12g"] else [])
 
 /-- classes of a bare source / filter text (what `cmdCreatePipe` stores): only the `{…}` classes apply -/
 def sourceClasses (s : Source) : List String :=
